@@ -6,12 +6,15 @@ from oracle_util import *  # noqa
 from protocol import from_real
 
 ID = "C15"
-LEAN_MODULE = None
+LEAN_MODULE = "SCoda.Props.C15"
+LEVEL = "proof"
 CLAUSES = [
-    ("sounding set of the merge = union of the inputs' sounding sets (overlaps fused)", None),
-    ("every signature event that does not repeat the one in force is kept at its tick", None),
-    ("duration = maximum input duration", None),
-    ("notes (pitch, onset, duration) do not depend on the merge order", None),
+    ("sounding set of the merge = union of the inputs' sounding sets (overlaps fused from earliest start to latest end); the merge is well-formed; "
+     "the model's mergeRel is what the wrapper computes", ["SCoda.C15.union", "SCoda.C15.wf", "SCoda.C15.mergeSeq_eq"]),
+    ("every signature event that does not repeat the one in force is kept at its tick; nothing is invented; other events all kept",
+     ["SCoda.C15.signatures", "SCoda.C15.events_sublist", "SCoda.C15.others_kept"]),
+    ("duration = maximum input duration", ["SCoda.C15.duration"]),
+    ("the sounding set (hence every note's pitch, onset and duration) does not depend on the merge order", ["SCoda.C15.order_independent"]),
 ]
 RULE = ("families of 1-3 well-formed sequences x <=4 notes, same and different channels, overlapping and abutting notes, "
         "different lengths, empty sequences; non-trivial = two inputs with notes on a common (channel, pitch)")
